@@ -69,6 +69,8 @@ def run(run, harness, replay=None):
         run.add_tlc("Gen_TokenEdits", r)
         jobs.append(["edits", epath, os.path.join(VERIF, "corpus"), "45" if tier == "quick" else "150"])
         jobs.append(["soup", "3000" if tier == "quick" else "100000"])
+        # witnesses of repaired front-end defects stay in the input set
+        jobs.append(["texts", os.path.join(VERIF, "regress", "c07_texts.ndjson")])
         run.cov["exhaustive"] = True
     import concurrent.futures as cf
 
